@@ -151,6 +151,10 @@ impl DiskRowset {
             DataValue::Int32(begin_val) => {
                 let mut pre_block_first_key = 0;
                 for index in column_index.indexes() {
+                    // first keys are only recorded with `record_first_key`: without them, scan from the start
+                    if index.first_key.is_empty() {
+                        return ColumnSeekPosition::RowId(0);
+                    }
                     let mut first_key: &[u8] = &index.first_key;
                     let first_val: i32 = PrimitiveFixedWidthEncode::decode(&mut first_key);
 
